@@ -1,6 +1,8 @@
 package main
 
 import (
+	"sort"
+	"go/types"
 	"fmt"
 	"go/token"
 	"strings"
@@ -105,6 +107,9 @@ func (ca *cleanAnalysis) strongClean(fn *ssa.Function) bool {
 
 func checkC05(c *Ctx) {
 	l := c.L
+	checkBatchSiblings(c, "SIB-batch-wrapper")
+	checkPooledBytes(c, "FRESH-pooled-bytes")
+	checkNoDirectStoreWrites(c, "OWN-store-writes")
 	c.rule("PASS-commit-last", "no batch mutation after the last commit on any success path of a mutating operation", 6)
 	c.rule("ORDER-root-last", "visibility marker is the last thing written", 5)
 	c.rule("ORDER-rekey", "re-keying writes the new key before deleting the old", 1)
@@ -420,4 +425,109 @@ func checkRekeyOrder(c *Ctx) {
 		}
 	}
 
+}
+
+// checkNoDirectStoreWrites (shared by C05, C01, C07): every mutation of the
+// store goes through the pending batch.  A Set/Delete issued directly on the
+// key-value store overtakes the operations queued before it (a queued Delete
+// of the same key is applied AFTER the direct Set and erases it) and is a
+// physical write in the middle of a logical operation.
+func checkNoDirectStoreWrites(c *Ctx, rule string) {
+	l := c.L
+	c.rule(rule, "no mutation is issued directly on the key-value store (all go through the batch)", 0)
+	n := 0
+	for _, fn := range l.SrcFuncs {
+		if l.pkgPathOf(fn) != l.ModPath {
+			continue
+		}
+		allInstrs(fn, func(in ssa.Instruction) {
+			cc := callCommon(in)
+			if cc == nil || !cc.IsInvoke() {
+				return
+			}
+			switch cc.Method.Name() {
+			case "Set", "Delete", "SetSync", "DeleteSync":
+			default:
+				return
+			}
+			it, ok := cc.Value.Type().Underlying().(*types.Interface)
+			if !ok {
+				return
+			}
+			isStore := false
+			for i := 0; i < it.NumMethods(); i++ {
+				if it.Method(i).Name() == "Get" || it.Method(i).Name() == "Iterator" {
+					isStore = true
+				}
+			}
+			if !isStore {
+				return
+			}
+			n++
+			c.bad(rule, l.fname(fn)+" writes the store directly: "+cc.Method.Name(), l.ipos(in), "a mutation is issued directly on the key-value store, not through the pending batch: it overtakes the operations queued before it (a queued Delete of the same key erases it at the next write) and is a physical write in the middle of a logical operation")
+		})
+	}
+	if n == 0 {
+		c.ok(rule, "no direct store mutation in the module's root package", "-", "every Set/Delete invoke has a batch receiver")
+	}
+}
+
+// checkBatchSiblings (shared by C05, C01): the two write entry points of the
+// batch wrapper (Write / WriteSync) and its two queueing entry points (Set /
+// Delete) keep the wrapper's bookkeeping in step: siblings write the same set
+// of the wrapper's fields.  State that only one of them resets (a size or
+// entry counter) drifts under the option that selects the other sibling
+// (Options.Sync chooses WriteSync) and moves the flush point into the middle
+// of a later, small commit.
+func checkBatchSiblings(c *Ctx, rule string) {
+	l := c.L
+	c.rule(rule, "sibling entry points of the batch wrapper write the same wrapper fields", 2)
+	fieldsWritten := func(fn *ssa.Function) map[string]bool {
+		out := map[string]bool{}
+		var walk func(f *ssa.Function, depth int)
+		walk = func(f *ssa.Function, depth int) {
+			if f == nil || len(f.Blocks) == 0 || len(f.Params) == 0 {
+				return
+			}
+			recv := f.Params[0]
+			allInstrs(f, func(in ssa.Instruction) {
+				if st, ok := in.(*ssa.Store); ok {
+					if fa, ok := st.Addr.(*ssa.FieldAddr); ok && stripTrivial(fa.X) == ssa.Value(recv) {
+						out[fieldName(fa.X.Type(), fa.Field)] = true
+					}
+				}
+				if depth < 2 {
+					if cc := callCommon(in); cc != nil {
+						if g := staticCallee(cc); g != nil && l.inModule(g) && g.Signature.Recv() != nil && len(cc.Args) > 0 && stripTrivial(cc.Args[0]) == ssa.Value(recv) {
+							walk(g, depth+1)
+						}
+					}
+				}
+			})
+		}
+		walk(fn, 0)
+		return out
+	}
+	for _, pair := range [][2]string{{"*BatchWithFlusher.Write", "*BatchWithFlusher.WriteSync"}, {"*BatchWithFlusher.Set", "*BatchWithFlusher.Delete"}} {
+		a, b := l.Func("", pair[0]), l.Func("", pair[1])
+		if a == nil || b == nil {
+			c.anchorMissing(rule, pair[0]+" / "+pair[1])
+			continue
+		}
+		fa, fb := fieldsWritten(a), fieldsWritten(b)
+		var diff []string
+		for f := range fa {
+			if !fb[f] {
+				diff = append(diff, f+" (only "+a.Name()+")")
+			}
+		}
+		for f := range fb {
+			if !fa[f] {
+				diff = append(diff, f+" (only "+b.Name()+")")
+			}
+		}
+		sort.Strings(diff)
+		c.decide(rule, l.fname(a)+" ~ "+l.fname(b), l.pos(a.Pos()), len(diff) == 0, "both write the same wrapper fields",
+			"the siblings do not write the same fields of the wrapper: "+strings.Join(diff, ", ")+" — bookkeeping that only one of them maintains drifts when the other is the one in use (Options.Sync selects WriteSync), and the next flush decision is taken on stale numbers")
+	}
 }
